@@ -176,6 +176,7 @@ type hand struct {
 	nb     *table.NativeBackend
 	mon    *engineMon
 	useTwin bool
+	rawTwin *pokerface.GameState // the twin's own state after the last op (before any resynchronisation)
 	dead   bool // a panic ended the history
 	closed bool
 }
@@ -489,6 +490,7 @@ func (h *hand) exec(op opSpec) (err error) {
 			if terr == nil && ns != nil {
 				h.twin = ns
 			}
+			h.rawTwin = h.twin
 			if h.twin != nil && (err == nil || terr == nil) && canonJSON(h.twin) != canonJSON(gs) {
 				h.o.Violate("C07", "resume_state", fmt.Sprintf("after %s the game rebuilt from JSON differs from the in-memory game:\n mem=%s\n twin=%s", op.line(), canonJSON(gs), canonJSON(h.twin)))
 				h.twin = cloneJSON(gs) // resynchronise to report later divergences separately
